@@ -125,7 +125,12 @@ NOT_YET = {}
 ADDENDA = {
  "C02": " Added: the size-bound clause for the BASE MODULES of TopoART and DualVigilanceART, generically in the base module (Wrap_bound.v) and instantiated for Fuzzy (|w| >= rho d), Hypersphere and Ellipsoid ART at the level of whole fit calls, under every mode that never lowers the vigilance (true only since /repo 79caf04 / 8381662: match tracking fires on vigilance-passing vetoed categories alone). Oracles: wrapped streams with reset functions, late set_params on the base module, DualVigilanceART over BayesianART, boundary beta_lower; probes of the independent audits (DESIGN 0.9).",
  "C03": " Added: a freshly committed ART1 category is a fixed point of its founding pattern, both halves of the weight (ART1_new.v; true only since /repo 4a12d55, the previous divisor L-1+dim kept as art1_new_before_fix_refuted); the Ellipsoid model follows the repaired major-axis rule (/repo 45d03fa). Oracle: relations the published equations impose on every trained weight (ART1 bottom-up rule, founding pattern is a fixed point, Ellipsoid axis zero exactly for one-point categories, unit otherwise, never changed afterwards); audit probes (QuadraticNeuronART centres, shrink ratios above 1/2).",
- "C17": " BARTMAP's row veto over a DualVigilanceART column module (repaired /repo 30c6fc7; the ValueError is filed under the recorded empty-cluster finding only when a cluster really is empty); audit probes (constant rows / columns, pruning TopoART as column module).",
+ "C17": " Added (axiom-free, Bartmap_fit.v): BARTMAP.fit as a whole - both data sets validated first, the column module fitted alone on the transposed matrix, the row module fitted with the row veto (an oracle: a function of the row number, universally quantified) - ends in a checkerboard: shapes, widths, every cell in exactly one bicluster, membership = labels, with NO hypothesis on the labels (they are what the two fits produce; C05's invariant supplies the ranges). Correspondence: whole fit calls on square grid matrices against the model, the implementation's own veto verdicts as oracle. BARTMAP's row veto over a DualVigilanceART column module (repaired /repo 30c6fc7; the ValueError is filed under the recorded empty-cluster finding only when a cluster really is empty); audit probes (constant rows / columns, pruning TopoART as column module).",
+ "C16": " Added (Falcon_ep.v): whole calculate_SARSA calls for episodes of every length >= 1 (one target per kept row, every target a valid reward-channel input, a one-step episode trains on its own reward row or the complement-coded single_sample_reward), the untrained target for every td_alpha (clip(alpha r)), and the greedy action 'minimal on request'. Correspondence for whole calls incl. one-step episodes; default action space.",
+ "C15": " Oracle: CVIART fits of 1-3 epochs, every step judged against the labelling before that step, exceptions on valid data are failures (two defects repaired: CVI_match on labellings without an index, iCVI_CH on the caller's array / dtype); add/switch streams as unsigned / boolean / float32 rows and through one re-used buffer.",
+ "C12": " Oracle: SMART / DeepARTMAP over every elementary module class as level model, 2..4 levels (Bayesian: decreasing ladder).",
+ "C09": " Oracle: the public map_a2b on vectors and single labels.",
+ "C01": " Oracle: the search as SimpleARTMAP drives it (its own reset function) against the specification scan, all eight modules.",
  "C04": " Added: whole-call totality for two compound estimators, TopoART and DualVigilanceART over Fuzzy ART with alpha > 0 (two-winner search, both updates, pruning rounds with re-prediction; the category-to-cluster map is total by the map invariant). Oracle: every boundary value of every hyper-parameter that validate_params accepts must train and predict (found and repaired: tau=0, r_hat<=0, sigma_init<=0, L=inf, singular cov_init); audit probes.",
  "C05": " Added (axiom-free): the same invariant for the A side of SimpleARTMAP / ARTMAP - established by a one-epoch fit, preserved by every partial_fit, together with 'one stored target per A-side label' (SAM_book.v). Oracle: a label must be usable as an index (integer dtype).",
  "C07": " Added (axiom-free): every training call of SimpleARTMAP, DualVigilanceART and TopoART leaves the wrapped module's vigilance as configured, for every kernel, mode, epsilon and reset function, through every exit path and pruning round (Wrap_rho.v).",
